@@ -173,6 +173,9 @@ func (p *Core) execLostCommit(op sim.Op) {
 	}
 	c := p.C[op.C]
 	p.tick(time.Duration(op.N))
+	// rate-limit worlds put an empty block in front of a block that would carry a window reset;
+	// that must happen before the crash point, so that both executions are of the very same block
+	p.rlIsolateEpochs(op.C)
 	t := p.chainTime(op.C)
 	n := 0
 	_, same, h1, h2 := c.BlockWithLostCommit(func() []*sim.TxResult {
